@@ -30,7 +30,7 @@ ASSUMPTIONS = [
     "a v3 request into a partition before discovery has succeeded times out in the discovery exchange, which uses the same "
     "timeout and retries; the transmission count and elapsed time are checked on whichever exchange was attempted",
 ]
-PROBES = ["depth_4", "exit_exception", "exit_base_exception", "exit_failing_request", "family_switch_in_block", "v3_temporarily_v2c",
+PROBES = ["rediscovery_checked", "depth_4", "exit_exception", "exit_base_exception", "exit_failing_request", "family_switch_in_block", "v3_temporarily_v2c",
           "v2c_temporarily_v3", "same_family_cred_change", "context_change", "unknown_setting", "partition_timeout",
           "configure_inside_block", "request_after_exit", "v1_spoken", "timeout_override", "retries_override"]
 shrink_lists = [("body",)]
@@ -181,10 +181,19 @@ def _kw_real(kw: dict, creds: List[dict]) -> dict:
     return out
 
 
-def _apply(model: dict, kw: dict) -> dict:
+_MPM_IDS = [0]
+
+
+def _apply(model: dict, kw: dict, creds: Optional[List[dict]] = None) -> dict:
     new = dict(model)
     for k, v in kw.items():
         new[k] = [bytes(v[0]), bytes(v[1])] if k == "context" else v
+    if creds is not None and "credentials" in kw and \
+            creds[kw["credentials"]]["version"] != creds[model["credentials"]]["version"]:
+        # another credential family: another message-processing model (what it has learnt - the discovered engine - is
+        # kept with the snapshot it belongs to and comes back when that snapshot is restored)
+        _MPM_IDS[0] += 1
+        new["mpm"] = _MPM_IDS[0]
     return new
 
 
@@ -212,7 +221,9 @@ def execute(plan: dict) -> dict:
                       engine_id=bytes(init["context"][0]), context_name=bytes(init["context"][1]))
     rec = client._verif_recorder
     stack: List[dict] = [{"timeout": init["timeout"], "retries": init["retries"], "credentials": init["credentials"],
-                          "context": [bytes(init["context"][0]), bytes(init["context"][1])]}]
+                          "context": [bytes(init["context"][0]), bytes(init["context"][1])], "mpm": 0}]
+    _MPM_IDS[0] = 0
+    discovered: set = set()
     violation = None
     probes = {k: 0 for k in PROBES}
     classes: List[str] = []
@@ -267,6 +278,16 @@ def execute(plan: dict) -> dict:
         data = [r for r in new if not r.get("discovery")]
         if not data:
             fail("no-request", "request produced no datagram")
+        n_disco = sum(1 for r in new if r.get("discovery"))
+        if cred["version"] == "v3":
+            if m["mpm"] in discovered and n_disco:
+                probes["rediscovery_checked"] = 1
+                fail("rediscovery", "%d discovery probe(s) sent although this configuration had discovered the engine before "
+                     "(leaving a block / an unrelated setting must not forget it)" % n_disco)
+            elif m["mpm"] in discovered:
+                probes["rediscovery_checked"] = 1
+            if n_disco and data:
+                discovered.add(m["mpm"])
         for r in data:
             want_version = {"v1": 0, "v2c": 1, "v3": 3}[cred["version"]]
             if r["version"] != want_version:
@@ -415,7 +436,7 @@ async def _drive(plan: dict, client: Any, creds: List[dict], stack: List[dict], 
                 classes.append("cfg(%s)" % ",".join(sorted(item["kw"])))
                 client.configure(**_kw_real(item["kw"], creds))
                 _note_switch(stack[-1], item["kw"], creds, probes, in_block=depth > 0)
-                stack[-1] = _apply(stack[-1], item["kw"])
+                stack[-1] = _apply(stack[-1], item["kw"], creds)
                 if depth > 0:
                     probes["configure_inside_block"] = 1
             elif do == "bad-configure":
@@ -450,7 +471,7 @@ async def _drive(plan: dict, client: Any, creds: List[dict], stack: List[dict], 
                 try:
                     with client.reconfigure(**_kw_real(item["kw"], creds)):
                         _note_switch(stack[-1], item["kw"], creds, probes, in_block=True)
-                        stack.append(_apply(stack[-1], item["kw"]))
+                        stack.append(_apply(stack[-1], item["kw"], creds))
                         check_config("inside block")
                         await run_body(item["body"], depth + 1)
                         if item["exit"] == "exception" and violated() is None:
